@@ -533,7 +533,7 @@ def grammars(tier: str, rng) -> List[dict]:
     for src, n, pz in ((G.enum_nonrecursive(tier, rng), n_nonrec, C3.P_ZERO), (G.enum_recursive(tier, rng), n_rec, 0.08)):
         k = 0
         for g in src:
-            if not g["weights"]:
+            if not g["weights"] or g.get("weights_log"):
                 continue
             # prefer the shapes the suite avoids: >= 2 edges per rule somewhere
             if not any(len(r["edges"]) >= 2 for r in g["rules"]):
